@@ -148,8 +148,15 @@ package index
 //@   end
 
 //@ func (*InsertionIndex).GetAll
+//@   ensures notfound_iff_no_candidate [C04,C07]: (err == ErrNotFound) == !cur(any) || err != ErrNotFound && err != nil
 //@   closure[0]
 //@     assume tree_holds_record_digests: typeis(i, "v2/index.recordDigest")
+//@     let samedig := call[bytes.Equal#0]
+//@     let more := call[dynamic#0]
+//@     call[bytes.Equal#0] assert compares_digest_with_the_keys_digest [C04,C07]: ref(arg1) == ref(entry.digest)
+//@     call[dynamic#0] assert yields_the_candidates_offset [C04,C07]: arg0 == existing.Record.Offset && samedig
+//@     ensures stops_after_the_digest_run [C04,C07]: !samedig ==> result == false && any == old(any)
+//@     ensures candidate_is_offered_and_caller_decides [C04,C07]: samedig ==> any && result == more
 //@   end
 
 //@ func (*multiWidthIndex).Unmarshal
